@@ -101,6 +101,18 @@ static void check_state(const pref::Ref &R, const u64 *s, const u64 *s2, Cnt &c,
         PoseidonGoldilocks::hash((E(&)[4])h, (const E(&)[12])in);
         c.evals++;
         for (int i = 0; i < 4; i++) if (h[i].fe % PR != ex[i]) { rep().viol(fmt("C06.wrong.hash.w%u", W), casestr("hash", s, 12, 0), fmt("part=%s element %d", part, i)); break; }
+        // digest written over the first four elements of its own input
+        {
+            E io[12];
+            for (int i = 0; i < 12; i++) io[i].fe = s[i];
+            PoseidonGoldilocks::hash((E(&)[4])io[0], (const E(&)[12])io);
+            c.evals++;
+            for (int i = 0; i < 4; i++) if (io[i].fe % PR != ex[i]) { rep().viol(fmt("C06.wrong.hash.alias.w%u", W), casestr("hash_alias", s, 12, 0), fmt("part=%s element %d", part, i)); break; }
+            for (int i = 0; i < 12; i++) io[i].fe = s[i];
+            PoseidonGoldilocks::hash_seq((E(&)[4])io[0], (const E(&)[12])io);
+            c.evals++;
+            for (int i = 0; i < 4; i++) if (io[i].fe % PR != ex[i]) { rep().viol(fmt("C06.wrong.hash_seq.alias.w%u", W), casestr("hash_seq_alias", s, 12, 0), fmt("part=%s element %d", part, i)); break; }
+        }
     }
 #ifdef __AVX512__
     {
